@@ -190,6 +190,50 @@ def directed_throttle(variant):
     return v, eng.transcript()
 
 
+def directed_limits(variant):
+    """Every limit kind must end a search by itself, also when the search started as 'go ponder' and was released by ponderhit,
+    and also with a clock value at or below zero (flag already fallen). Wall-clock waits are watchdogs: the searches need
+    milliseconds, the watchdog is 15 s, and a miss is re-run once before it is reported."""
+    cases = [(["go ponder depth 3", "ponderhit"], "ponderhit with a depth limit already reached"),
+             (["go ponder nodes 500", "ponderhit"], "ponderhit with a node limit already reached"),
+             (["go ponder mate 1", "ponderhit"], "ponderhit with a mate-search depth limit already reached"),
+             (["go ponder movetime 50", "ponderhit"], "ponderhit with a move time"),
+             (["go ponder wtime 2000 btime 2000 depth 2", "ponderhit"], "ponderhit with clock and depth limit"),
+             (["go wtime 1000 btime -500"], "negative clock of the side to move"),
+             (["go wtime -500 btime 1000"], "negative clock of the side not to move"),
+             (["go wtime 1000 btime 0"], "zero clock of the side to move"),
+             (["go wtime -1 btime -1 winc -5 binc -5 movestogo -3"], "negative time control"),
+             (["go searchmoves e7e5 g8f6 depth 3"], "depth limit after a searchmoves list"),
+             (["go searchmoves e7e5 nodes 500"], "node limit after a searchmoves list"),
+             (["go searchmoves e7e5 d7d5 movetime 50"], "move time after a searchmoves list"),
+             (["go searchmoves e7e5 wtime 300 btime 300"], "clock after a searchmoves list"),
+             (["go depth 3 searchmoves e7e5 g8f6"], "depth limit before a searchmoves list"),
+             (["go mate 1"], "mate search"), (["go depth 2 nodes 100000 movetime 5000"], "several limits at once")]
+    v = []
+    eng = uci.Engine(variant, "material_1")
+    eng.send("uci"); eng.send("isready")
+    for cmds, what in cases:
+        for attempt in (0, 1):
+            eng.send("position startpos moves e2e4")
+            st = eng.nlines()
+            for c in cmds:
+                eng.send(c)
+                if c.startswith("go ponder"):
+                    time.sleep(0.6)
+            r = eng.wait_for(lambda l: l.startswith("bestmove"), st, 15)
+            if r:
+                break
+            eng.send("stop")
+            eng.wait_for(lambda l: l.startswith("bestmove"), st, 15)
+        else:
+            # ('go depth 0', 'go wtime 0 btime 0' and the like are not in the list: a zero value is how the parser represents an absent
+            # parameter, so they legitimately mean a search without that limit)
+            v.append(("limit-does-not-end-the-search", "%s: '%s' -> no bestmove within 15 s (twice)" % (what, " ; ".join(cmds))))
+    rc = eng.close("quit", timeout=25)
+    v += sessions.judge(eng, rc, "quit")
+    return v, eng.transcript()
+
+
 def run(c):
     quick = c.tier == "quick"
     n_asan = int((160 if quick else 8000) * c.scale)
@@ -230,6 +274,9 @@ def run(c):
         v, tr = directed_throttle(variant)
         for kind, det in v:
             c.violation("node-rate-throttle", kind, det, detail=tr)
+        v, tr = directed_limits(variant)
+        for kind, det in v:
+            c.violation("search-limits", kind, det, detail=tr)
     # scheduled in-process sessions (delays relative to search progress are literal scheduler steps; hangs are logical verdicts)
     B.build([("rel", "h_cos")])
     core.ensure_nets(["zero_1"])
